@@ -78,6 +78,13 @@ def main() -> int:
             if broken:
                 # obligations are NOT discharged against the current source
                 obligations["theorems"] = {}
+            if a.tier == "thorough" and not broken:
+                # independent re-check of the compiled theorem modules by leanchecker
+                mods = [f"Solvor.{ar}.Theorems" for ar in mod.AREAS]
+                rc, out, err = core.sh(["lake", "env", "leanchecker", *mods], cwd=core.LEAN, timeout=3600)
+                ctx.cov["leanchecker"] = {"modules": mods, "rc": rc, "tail": (out + err)[-300:]}
+                if rc != 0:
+                    raise core.Infra("leanchecker rejected the compiled theorem modules: " + (out + err)[-1500:])
         # 2. correspondence
         if a.replay:
             body = json.loads(Path(a.replay).read_text())
